@@ -61,6 +61,45 @@ def concretize_index(idx, pt):
     return (a_, b_)
 
 
+def ieee_whole_bins(ck, prog, fi):
+    """Whole-bin shifts in double precision.  The inputs below are doubles for which df*N/sample_rate is EXACTLY the integer k in
+    real arithmetic, so the statement's "exactly a circular move" applies; the number of bins the source computes (1/sample_rate,
+    times df, times N: three rounded operations, folded here with IEEE round-to-nearest-even exactly as written in the source)
+    comes out as k + 2^-50 or so for many of them.  The zero-filled range must still be the k wrapped bins: one bin more
+    destroys a bin of legitimate content."""
+    cases = [(5, 100, sp.Rational(3, 4), 15), (5, 100, sp.Rational(3, 2), 30), (10, 100, sp.Rational(3, 2), 15), (5, 1000, sp.Rational(3, 8), 75),
+             (5, 100, -sp.Rational(3, 4), -15), (10, 1000, -sp.Rational(3, 2), -150), (1, 128, sp.Rational(7, 128), 7), (3, 96, sp.Rational(5, 32), 5),
+             (7, 64, -sp.Rational(7, 8), -8), (1000, 100, sp.Integer(30), 3)]
+    bad, unk, n = [], None, 0
+    for sr, nlen, df_, k in cases:
+        assert sp.Rational(df_) * nlen / sr == k
+        z = make_signal(prog, "BasebandSignal", n=nlen, nchan=1, sample_rate=Num(sp.Integer(sr) * Hz, kind="quantity", unit=Hz, isfloat=True), dtype="complex128")
+        ev = ck.evaluator()
+        ev.float_fold = True
+        try:
+            ev.call(fi, [z, Num(df_ * Hz, kind="quantity", unit=Hz, isfloat=True)], {})
+        except (Raised, Unsupported) as e:
+            unk = f"sample_rate {sr} Hz, N {nlen}, df {df_} Hz: {str(e)[:160]}"
+            break
+        stores = [t for t in ev.trace if t[0] == "store"]
+        got = concretize_index(stores[0][2], {}) if stores else None
+        want = (k, None) if k < 0 else (None, k)
+        if got is None:
+            unk = f"sample_rate {sr} Hz, N {nlen}, df {df_} Hz: zero-fill index not concrete ({str(stores[0][2])[:100] if stores else 'no store'})"
+            break
+        n += 1
+        if got != want:
+            bad.append(f"sample_rate {sr} Hz, N = {nlen}, df = {df_} Hz (exactly {k} bins): zero-fills [{got[0]}:{got[1]}], the wrapped bins are [{want[0]}:{want[1]}]")
+    if unk:
+        ck.unk("R2", fi.where, "zero-fill extent for exact whole-bin shifts in double precision", "evaluates on concrete doubles", unk)
+    else:
+        ck.same("R2", fi.where, "zero-fill extent for exact whole-bin shifts in double precision",
+                "a shift of exactly k bins zero-fills exactly the k wrapped bins, although the bin count computed in doubles is k only to within rounding",
+                not bad, found="; ".join(bad[:3]) + (f" (+{len(bad) - 3} more)" if len(bad) > 3 else "") if bad else None, nontrivial=True,
+                note=f"{n} witnesses; {len(bad)} wrong")
+    ck.run.floor("R2", "whole-bin witnesses evaluated in double precision", n, 10 if not unk else 0)
+
+
 def check(run, prog):
     run.explanation = EXPLANATION
     run.assumptions += ["real-number semantics; fft/ifft/fftshift as opaque injective operators"]
@@ -123,6 +162,7 @@ def check(run, prog):
         bad = meta_same(z, out)
         ck.same("R1", fi.where, "ledger " + tag, "type, sample rate, start time and frequency labels unchanged", out.cls is z.cls and not bad,
                 found="; ".join(bad) or obj_summary(out), nontrivial=True)
+    ieee_whole_bins(ck, prog, fi)
     # ------------------------------------------------------------------ R1 per-element shifts (array shift, symbolic N), both back ends
     import itertools
     from fractions import Fraction
